@@ -34,7 +34,8 @@ def main():
                 return tuple(tup(x) for x in t) if isinstance(t, list) else t
             tree = tup(tree)
             with contextlib.redirect_stdout(io.StringIO()):
-                K = Kripke(S=states, R=R, L=Ld)
+                # S may list only part of the states: the others are introduced by R (every state has an outgoing edge)
+                K = Kripke(S=[thaw(s) for s in j['states_arg']] if 'states_arg' in j else states, R=R, L=Ld)
                 if j.get('entry') == 'text':
                     f = str(to_obj(tree, lang('CTLS') if j['logic'] == 'CTL' else L))
                 else:
